@@ -109,6 +109,9 @@ fn render(doc: &Value, dir: &str) -> Value {
         "roller_no_braces" => Some(roll(json!({"trigger": size, "roller": win(json!({"pattern": format!("{}/x.log.old", dir)}))}))),
         "console_bad_target" => Some(json!({"kind": "console", "target": "stdnowhere"})),
         "unknown_kind" => Some(json!({"kind": "carrier_pigeon"})),
+        // a dropped appender that carries valid filters of its own: they must vanish with it
+        "unknown_kind_with_filter" => Some(json!({"kind": "carrier_pigeon", "filters": [thr("off")]})),
+        "file_no_path_with_filter" => Some(json!({"kind": "file", "filters": [thr("error"), thr("off")]})),
         "time_zero_interval" => Some(roll(json!({"trigger": {"kind": "time", "interval": "0 seconds", "modulate": true}, "roller": del}))),
         _ => Some(roll(json!({"trigger": {"kind": "time", "interval": "9223372036854775807 weeks"}, "roller": del}))),
     };
